@@ -78,5 +78,9 @@ def main(what, rest):
         from . import seeded
 
         return seeded.main(rest)
+    if what == "benign":
+        from . import seeded
+
+        return seeded.main_benign(rest)
     print("unknown selftest", what)
     return 2
